@@ -44,9 +44,10 @@ Proof. exact passing_nonvacuous. Qed.
 Print Assumptions C01_passing_nonvacuous.
 
 (* The tag filter in front of passingServices keeps every agent and maintenance check, so
-   it never changes the health of an instance whose own checks carry the prefix ... *)
+   it never changes the health of an instance whose own checks carry a tag that, trimmed,
+   starts with the prefix (the property's "advertises") ... *)
 Theorem C01_tagfilter_keeps_node_checks : forall prefix checks status strict n sid,
-  (forall c, In c checks -> own n sid c -> tag_kept prefix c = true) ->
+  (forall c, In c checks -> own n sid c -> tagged prefix c = true) ->
   (healthy (checks_with_tag_prefix prefix checks) status strict n sid <->
    healthy checks status strict n sid).
 Proof. exact tagfilter_keeps_node_checks. Qed.
@@ -55,7 +56,7 @@ Print Assumptions C01_tagfilter_keeps_node_checks.
 (* ... and what one round of the watcher hands to makeConfig is exactly the tagged healthy
    service checks *)
 Theorem C01_watch_passing_iff : forall prefix checks status strict svc,
-  (forall c, In c checks -> own (c_node svc) (c_sid svc) c -> tag_kept prefix c = true) ->
+  (forall c, In c checks -> own (c_node svc) (c_sid svc) c -> tagged prefix c = true) ->
   (In svc (watch_passing prefix status strict checks) <->
    In svc checks /\ is_service_check svc = true /\ healthy checks status strict (c_node svc) (c_sid svc)).
 Proof. exact watch_passing_iff. Qed.
@@ -66,13 +67,16 @@ Theorem C01_untagged_never_passing : forall prefix checks status strict svc,
 Proof. exact tagfilter_drops_untagged. Qed.
 Print Assumptions C01_untagged_never_passing.
 
-(* finding F-C01-2: the filter looks at the tag untrimmed, routecmd.build trims it first: a
-   healthy instance whose only route tag has leading white space is not routed *)
+(* finding F-C01-2, repaired in /repo by the fix: commit fdfd589: the filter used to look at
+   the tag untrimmed while routecmd.build trims it first, so that a healthy instance whose
+   only route tag has leading white space was not routed.  Stated about the filter as it
+   was ([svc_config_unrepaired]); the repaired pipeline routes the witness. *)
 Theorem C01_untrimmed_tag_refuted :
   exists prefix status checks e,
     route_tags prefix (e_tags e) <> [] /\ e_cmds e <> [] /\
     healthy checks status false (e_node e) (e_sid e) /\ registered checks (e_node e) (e_sid e) /\
-    svc_config prefix status false checks [e] = Ok [].
+    svc_config_unrepaired prefix status false checks [e] = Ok [] /\
+    svc_config prefix status false checks [e] = Ok (join (e_cmds e) [10]).
 Proof. exact untrimmed_tag_refuted. Qed.
 Print Assumptions C01_untrimmed_tag_refuted.
 
@@ -140,7 +144,7 @@ Theorem C01_healthy_tagged_is_routed : forall prefix status strict checks catalo
   In e catalog -> e_sname e <> [] ->
   In svc checks -> is_service_check svc = true -> c_sname svc = e_sname e ->
   c_node svc = e_node e -> c_sid svc = e_sid e ->
-  (forall c, In c checks -> own (e_node e) (e_sid e) c -> tag_kept prefix c = true) ->
+  (forall c, In c checks -> own (e_node e) (e_sid e) c -> tagged prefix c = true) ->
   healthy checks status strict (e_node e) (e_sid e) ->
   In x (e_cmds e) -> In x (sort_desc ls).
 Proof. exact healthy_tagged_is_routed. Qed.
